@@ -1,7 +1,43 @@
-import Labella.Model.Render
-namespace Labella.C11
-open Labella Labella.Render
+import Labella.Model.Process
+import Labella.Model.CalSpec
+import Labella.Proofs.CalendarLemmas
+import Labella.Proofs.ProcessLemmas
+import Labella.Props.C12
+import Labella.Props.C17
+import Mathlib.Algebra.Order.Field.Rat
+/-! # C11 — export succeeds on every documented input
 
-theorem placeholder_gap (o : ROpt) : gapOf o = o.layerGap + o.nodeHeight := rfl
+Every function of the models is total (Lean definitions), including the places where the pre-repair code raised:
+a zero-width domain (`Scale.uninterp` guards the division: `C12.degenerate`), the tick label precision of a zero
+step (`Scale.tickDecimals` of 0), stepping days across month ends (`Calendar.stepU .day` is plain addition:
+`C17.step_is_next`), the integer millisecond step (`Calendar.msRange`), `options = None`.  The theorems below state
+the degenerate-domain behaviour; the crash fuzz of the real constructors and exports is the tie. -/
+namespace Labella.C11
+open Labella Labella.Process
+
+/-! ### C11: degenerate time domain -/
+
+/-- a time domain consisting of a single instant gets exactly one tick (that instant) and `nice` leaves it alone:
+nothing divides by the zero span -/
+theorem degenerate_time_domain (t : Int) (m : Rat) (hm : 0 < m) :
+    Calendar.ticks t t m = [t] ∧ Calendar.nice t t m = (t, t) := by
+  have _ := hm   -- not needed: the zero span never reaches a division by `m` that matters
+  exact ⟨Calendar.ticks_degenerate t m, Calendar.nice_degenerate t m⟩
+
+
+/-- a degenerate numeric domain maps every datum to the start of the axis (clamped or not) -/
+theorem degenerate_linear_domain (c : Bool) (d r0 r1 x : ℚ) : Scale.apply c d d r0 r1 x = r0 :=
+  C12.degenerate c d r0 r1 x
+
+/-- … and has no ticks and an unchanged nice domain -/
+theorem degenerate_linear_ticks (d m : ℚ) : Scale.ticks d d m = [] ∧ Scale.nice d d m = (d, d) := by
+  constructor
+  · simp [Scale.ticks, Scale.tickRange, Scale.extent]
+  · simp [Scale.nice, Scale.nicePass, Scale.tickRange, Scale.extent]
+
+/-- stepping a day boundary forward never fails and lands on the following midnight, month ends included -/
+theorem day_step_total (b : Int) (hb : Calendar.isBoundary .day b = true) :
+    Calendar.IsNext .day b (Calendar.stepU .day b 1) :=
+  C17.step_is_next .day b hb
 
 end Labella.C11
